@@ -10,6 +10,7 @@ import numpy as np
 from scipy.sparse import csr_matrix
 
 from harness import vlib
+from harness import fpheap
 from harness.fpgen import CLS, KINDS, attempt, dump_fp, gen_fp, gen_value, make_fp
 from harness.dbgen import DTYPE, FingerprintDatabase
 
@@ -109,6 +110,7 @@ def csr_rows(specs, bits, dtype, order=None, zeros=False, rng=None):
                       shape=(len(specs), bits))
 
 
+@fpheap.with_heap_cases(("metric",), 60, 1500)
 class C06(vlib.Check):
     id = "C06"
     props_modules = ["E3fpVerif.Props.C06", "E3fpVerif.Props.C06Real"]
